@@ -245,7 +245,15 @@ func (fc *FnCtx) execBlock(b *ssa.BasicBlock, st *State) []edgeOut {
 		case *ssa.UnOp:
 			fc.unop(st, x)
 		case *ssa.BinOp:
-			fc.vals[x] = fc.binop(st, x)
+			r := fc.binop(st, x)
+			if len(r.T) == 1 && strings.Contains(r.T[0], "(ite ") {
+				srt := SInt
+				if fc.e.shape(x.Type()).Leaves[0].Sort == SBool {
+					srt = SBool
+				}
+				r.T[0] = vc.define("v_"+x.Name(), srt, r.T[0])
+			}
+			fc.vals[x] = r
 		case *ssa.Store:
 			fc.nilCheck(st, x.Addr, x.Pos())
 			lv := fc.lvOf(x.Addr)
